@@ -321,7 +321,7 @@ func (p *sparser) binary(min int) *SExpr {
 
 func (p *sparser) unary() *SExpr {
 	t := p.peek()
-	if t.k == "op" && (t.s == "!" || t.s == "-") {
+	if t.k == "op" && (t.s == "!" || t.s == "-" || t.s == "*") {
 		p.next()
 		x := p.unary()
 		return &SExpr{Kind: SUnary, Op: t.s, X: x, Pos: t.pos}
